@@ -3,7 +3,7 @@ module verif/harness
 go 1.23
 
 require (
-	github.com/samber/ro v0.0.0
+	github.com/samber/ro v0.2.0
 	github.com/samber/ro/ee/plugins/prometheus v0.0.0
 	github.com/samber/ro/plugins/bytes v0.0.0
 	github.com/samber/ro/plugins/encoding/base64 v0.0.0
